@@ -170,6 +170,7 @@ func VerifC02eRemoteSession(nfiles, nlines int) {
 		}
 	}
 	fs.VerifFiles = nil
+	longPath := verifrt.Bool("long-path")
 	var want [][]string
 	var commands []string
 	for f := 0; f < nfiles; f++ {
@@ -180,7 +181,12 @@ func VerifC02eRemoteSession(nfiles, nlines int) {
 			ls = append(ls, l)
 			content = append(content, l...)
 		}
-		path := fs.VerifProvideNamed("/f"+string(rune('0'+f)), content)
+		name := "/f" + string(rune('0'+f))
+		if f == nfiles-1 && longPath {
+			// a deep directory: the command is longer than 1 KiB on the wire
+			name = "/" + strings.Repeat("deep/", 180) + "f" + string(rune('0'+f))
+		}
+		path := fs.VerifProvideNamed(name, content)
 		// the files are read slowly (400 ms per line): every command of the session is
 		// still running when the next one arrives (no C02-KF3 window)
 		var chunks []int
